@@ -191,3 +191,23 @@ Definition blocked_by_current (mandatory : bool) (i : insights) (onk : list key)
 
 Definition togs_sub (a b : list tog) : bool := forallb (fun t => mem_tog t b) a.
 Definition togs_same (a b : list tog) : bool := togs_sub a b && togs_sub b a.
+
+(* ---- observation._update_resources: one dimension of the insights after a (re)scan -------------
+   `group` = None for the initial full scan, Some g when a CRD of API group g changed;
+   `selected` = the union of selector.select(source) over the handlers' selectors (the selectors are the
+   user's declaration: an oracle here; C15 is about them). *)
+Definition gres := (string * res)%type.            (* a resource with its API group *)
+
+Definition gres_eqb (a b : gres) : bool := String.eqb (fst a) (fst b) && res_eqb (snd a) (snd b).
+Definition mem_gres (x : gres) (l : list gres) : bool := existsb (gres_eqb x) l.
+
+(* `group in [None, resource.group]` *)
+Definition in_group (g : option string) (x : gres) : bool :=
+  match g with None => true | Some s => String.eqb s (fst x) end.
+
+Definition update_resources (g : option string) (rs selected : list gres) : list gres :=
+  fold_left (fun acc x => if mem_gres x acc then acc else x :: acc) selected
+            (filter (fun x => negb (in_group g x)) rs).
+
+Definition gres_sub (a b : list gres) : bool := forallb (fun x => mem_gres x b) a.
+Definition gres_same (a b : list gres) : bool := gres_sub a b && gres_sub b a.
